@@ -383,7 +383,7 @@ var _ = fmt.Sprintf
 
 type c11RcCase struct {
 	Call  string `json:"call"`  // connect | disconnect
-	Phase string `json:"phase"` // dialling | connecting | waiting
+	Phase string `json:"phase"` // dialling | connecting | waiting | activating (context ends while the accepting CONNACK is being processed)
 	Cause string `json:"cause"` // cancel | deadline
 }
 
@@ -421,6 +421,14 @@ func c11RcRun(tb rapid.TB, c c11RcCase) {
 		connCancel = cc
 	}
 	defer connCancel()
+	if c.Phase == "activating" && c.Call == "connect" {
+		// the caller's context ends exactly while Connect is completing: inside the Active callback
+		d.onState = func(conn int, st ConnState, err error) {
+			if st == StateActive {
+				trigger()
+			}
+		}
+	}
 	connRet := make(chan error, 1)
 	go func() {
 		_, err := cli.Connect(connCtx, "verif-c11rc")
@@ -462,6 +470,10 @@ func c11RcRun(tb rapid.TB, c c11RcCase) {
 				if e.Kind == "DIAL-ERR" {
 					return true
 				}
+			case "activating":
+				if e.Kind == "STATE" {
+					return true
+				}
 			}
 		}
 		return false
@@ -477,7 +489,12 @@ func c11RcRun(tb rapid.TB, c c11RcCase) {
 		trigger()
 		select {
 		case err := <-connRet:
-			if err == nil || !errors.Is(err, want) {
+			if c.Phase == "activating" {
+				// the connection was being established when the context ended: success and the context's error are both fine
+				if err != nil && !errors.Is(err, want) {
+					fail("ReconnectClient.Connect returned %v (want nil or errors.Is(%v))", err, want)
+				}
+			} else if err == nil || !errors.Is(err, want) {
 				fail("ReconnectClient.Connect in phase %s returned %v after its context ended (want errors.Is(%v))", c.Phase, err, want)
 			}
 		case <-time.After(20 * time.Second):
@@ -515,13 +532,24 @@ func c11RcRun(tb rapid.TB, c c11RcCase) {
 	}
 	vCount("C11", true, vJSON(c), []string{"cell:rc-" + c.Call + "@" + c.Phase, "cause:" + c.Cause}, func() interface{} { return c })
 	cleanup()
+	// nothing may be left running: once the dialler is released and Disconnect was called the loop goroutine ends
+	if !vWaitUntil(20*time.Second, func() bool {
+		select {
+		case <-cli.done:
+			return true
+		default:
+			return false
+		}
+	}) {
+		vFailf(tb, map[string]interface{}{"trace": log.strings(60), "goroutines": vGoroutineDump()}, "the reconnect loop goroutine is still running 20 s after Disconnect (phase %s, call %s, cause %s)", c.Phase, c.Call, c.Cause)
+	}
 }
 
 func TestVerifC11_ReconnectGrid(t *testing.T) {
 	vRun(t, "C11", vOpts{CurFile: true, ReplayReps: 3}, func(rt *rapid.T) c11RcCase {
 		return c11RcCase{
 			Call:  rapid.SampledFrom([]string{"connect", "disconnect"}).Draw(rt, "call"),
-			Phase: rapid.SampledFrom([]string{"dialling", "connecting", "waiting"}).Draw(rt, "phase"),
+			Phase: rapid.SampledFrom([]string{"dialling", "connecting", "waiting", "activating"}).Draw(rt, "phase"),
 			Cause: rapid.SampledFrom([]string{"cancel", "deadline"}).Draw(rt, "cause"),
 		}
 	}, c11RcRun)
